@@ -283,6 +283,11 @@ class Canon:
             if n in ("collect", "from_iter", "from_iterator", "collect_vec") and M0[3] and len(idx) == 1:
                 # a collection built from an iterator: element i is the iterator's i-th element
                 return self.nth(M0[3][-1], idx[0])
+            if n in ("rows_generic", "rows", "fixed_rows") and "nalgebra" in M0[1] and len(M0[3]) >= 2:
+                # a view of consecutive rows starting at `start`
+                start = self.canon(dimval(M0[3][1]))
+                i0 = idx[0] if start == ("const", "usize", 0) else ("bin", "Add", idx[0], start)
+                return self.mk_at(self.container(M0[3][0]), (i0,) + tuple(idx[1:]))
             if n == "diagonal" and "nalgebra" in M0[1] and M0[3]:
                 i = idx[0]
                 return self.mk_at(self.container(M0[3][0]), (i, i))
@@ -411,6 +416,8 @@ def generator_of(cn, t):
          X.map(f)                  -> (dims of X, f(X[iv]))     [element-wise]
        returns (dims tuple, value term, ivs tuple) or None; fresh ivs are registered with their extents"""
     t0 = strip_mut(t)
+    while t0[0] == "call" and len(t0) == 5 and last(t0[1]) in ("clone_owned", "into_owned", "clone", "to_owned") and t0[3]:
+        t0 = strip_mut(t0[3][0])
     if t0[0] != "call":
         return None
     n = last(t0[1])
@@ -430,6 +437,15 @@ def generator_of(cn, t):
             return None
         v = ev.apply(clo, ivs, ("tab-gen", 0, ()), Env(cb))
         return tuple(cn.norm_extent(cn.canon(d)) for d in dims), cn.canon(v), tuple(ivs)
+    if n in ("rows_generic", "rows") and "nalgebra" in t0[1] and len(t0[3]) == 3:
+        # an owned copy of a row range of a vector: element k is V[k + start], for k below the given length
+        V = cn.container(t0[3][0])
+        key = ("gen", cn._nosite(t0), 0)
+        ln = dimval(t0[3][2])
+        iv = cn.iv_for(key, ("agg", "std::ops::Range", None, (("start", ("const", "usize", 0)), ("end", ln))))
+        start = cn.canon(dimval(t0[3][1]))
+        i0 = iv if start == ("const", "usize", 0) else ("bin", "Add", iv, start)
+        return (cn.norm_extent(cn.canon(ln)),), cn.mk_at(V, (i0,)), (iv,)
     if n == "map" and "nalgebra" in t0[1] and len(t0[3]) == 2 and t0[3][1][0] == "closure":
         src = cn.container(t0[3][0])
         key = ("gen", cn._nosite(t0), 0)
@@ -727,3 +743,22 @@ def extent_covers(cn, w, iv, d):
     if not any(same(x, d) for x in e[1]):
         return False
     return all(same(x, d) or provably_le(d, x, facts()) for x in e[1])
+
+
+def nlin(cn, t):
+    """linear form of a usize term with its size atoms (nrows / ncols / len of containers) in canonical extent form"""
+    d = ilin(cn.canon(t))
+    if d is None:
+        return None
+    out = {}
+    for a, c in d.items():
+        if a is None:
+            out[None] = out.get(None, 0) + c
+            continue
+        a2 = cn.norm_extent(a)
+        sub = ilin(a2) if a2 != a else {a2: 1}
+        if sub is None:
+            sub = {a2: 1}
+        for k2, c2 in sub.items():
+            out[k2] = out.get(k2, 0) + c * c2
+    return {k: v for k, v in out.items() if v != 0}
